@@ -172,3 +172,65 @@ Qed.
 (* sequences of invocations in one process *)
 Lemma run_macros_length g invs : forall script, length (run_macros g invs script) = length invs.
 Proof. induction invs as [|i r IH]; intros script; cbn [run_macros length]; [reflexivity|]. now rewrite IH. Qed.
+
+(* ------------------------------------------------------------------ a whole process *)
+(* once a client is set, further offers change nothing *)
+Theorem process_set_once cfg other b c : forall steps script,
+  run_process cfg other (Some (b, c)) script steps =
+  run_process cfg other (Some (b, c)) script (filter is_invoke steps).
+Proof.
+  induction steps as [|st steps IH]; intros script; [reflexivity|].
+  destruct st as [| |inv]; cbn [run_process filter is_invoke offer]; auto.
+  f_equal. apply IH.
+Qed.
+
+(* before any client is set every invocation panics, having evaluated, emitted and reported nothing *)
+Theorem process_unset cfg other : forall steps script,
+  Forall (fun st => is_invoke st = true) steps ->
+  Forall (fun o => po_panicked o = true /\ po_emitted o = [] /\ po_handled o = [] /\ po_evals o = [])
+         (run_process cfg other None script steps).
+Proof.
+  induction steps as [|st steps IH]; intros script F; [constructor|].
+  inversion F as [|? ? Hst F']; subst. destruct st as [| |inv]; try discriminate.
+  cbn [run_process option_map].
+  rewrite (macro_unset inv script). cbn [m_panicked m_stuck m_emitted m_handled m_evals m_script].
+  constructor.
+  - cbn. repeat split; reflexivity.
+  - apply IH, F'.
+Qed.
+
+(* after the observed client has been set first, the invocations of the process are, one after the
+   other, the tagged quiet sends on that client - whatever else is offered later *)
+Theorem process_mine cfg other : forall steps script,
+  Forall2 (fun o r => po_panicked o = false /\
+                      match r with
+                      | Some x => po_stuck o = false /\ po_emitted o = o_emitted x /\ po_handled o = o_handled x
+                      | None => po_stuck o = true
+                      end)
+          (run_process cfg other (Some (true, cfg)) script steps)
+          (reference_sends cfg (invocations steps) script).
+Proof.
+  induction steps as [|st steps IH]; intros script; [constructor|].
+  destruct st as [| |inv]; cbn [run_process offer invocations flat_map app]; try apply IH.
+  cbn [option_map snd reference_sends].
+  pose proof (macro_equiv cfg inv script) as M. cbv zeta in M. destruct M as (P & Ev & M).
+  destruct (send_call cfg Quiet (reference_call inv) script) as [[o rest]|] eqn:SC.
+  - destruct M as (St & E & H & S). constructor.
+    + cbn. repeat split; assumption.
+    + rewrite S. apply IH.
+  - destruct M as (St & E & H & S). constructor.
+    + cbn. split; assumption.
+    + rewrite S. apply IH.
+Qed.
+
+(* ... and when another client won, the observed client's sink and handler see nothing at all,
+   and nothing panics *)
+Theorem process_other cfg other c : forall steps script,
+  Forall (fun o => po_panicked o = false /\ po_emitted o = [] /\ po_handled o = [])
+         (run_process cfg other (Some (false, c)) script steps).
+Proof.
+  induction steps as [|st steps IH]; intros script; [constructor|].
+  destruct st as [| |inv]; cbn [run_process offer]; try apply IH.
+  constructor; [|apply IH]. cbn [po_panicked po_emitted po_handled option_map snd]. repeat split.
+  pose proof (macro_equiv c inv []) as M. cbv zeta in M. exact (proj1 M).
+Qed.
